@@ -241,7 +241,7 @@ def C20(ctx):
     RBI.check_self_recursion(ctx, us, [f for f in us.functions if f.uq.startswith("frg::")])
     ctx.rule("R.loop-progress", "every loop of printf_format modifies a variable its condition depends on (the cursor, or the look-ahead counter) on every path around it", 3)
     for f in uf.fns(uq="frg::printf_format"):
-        sd = [p["d"] for p in f.params() if p["n"] == "s"][0]
+        sd = [p["d"] for p in f.params() if p["t"].replace(" ", "") == "constchar*"][0]
         RP.check_loop_progress(ctx, "R.loop-progress", f, None, default_vars=(sd,))
     return ("Structural clauses of C20. Not decided: absence of all undefined behaviour; bounds of the caller's arg_list.")
 
